@@ -305,11 +305,11 @@ module Make (I : INST) = struct
     let sys : sys option ref = ref None in
     let last_collected : st list ref = ref [] in
     let progs () =
-      LL.fold_left (fun acc (p, _, (cap, rt, nd)) ->
+      LL.fold_left (fun acc (p, _, (cap, rt, nd, sl)) ->
           let rs = LL.rev (try Hashtbl.find rows (sn p) with Not_found -> []) in
           Util.sins BinNat.N.compare p
             { Script.pg_cap = cap; Script.pg_rows = (if rs = [] then [[]] else rs); Script.pg_rectime = rt;
-              Script.pg_ndraws = nat_of_int nd } acc) [] !procs in
+              Script.pg_ndraws = nat_of_int nd; Script.pg_stateless = sl } acc) [] !procs in
     let build_sys () : sys =
       let (dr, du, co, _mn, mx) = !net in
       let loc = LL.fold_left (fun acc (p, n, _) -> Util.sins BinNat.N.compare p n acc) [] !procs in
@@ -362,8 +362,9 @@ module Make (I : INST) = struct
         | "VERBOSE" -> verbose := true
         | "NODE" -> let n = next_n t in let sk = next_n t in nodes := !nodes @ [(n, sk)]
         | "PROC" ->
-          let p = next_n t in let n = next_n t in let cap = next_n t in let rt = next_bool t in let nd = next_int t in
-          procs := !procs @ [(p, n, (cap, rt, nd))]
+          let p = next_n t in let n = next_n t in let cap = next_n t in let fl = next_int t in let nd = next_int t in
+          (* flags: bit 0 = record the clock, bit 1 = stateless process *)
+          procs := !procs @ [(p, n, (cap, fl land 1 <> 0, nd, fl land 2 <> 0))]
         | "ROW" ->
           let p = next_tok t in
           let k = next_int t in
